@@ -302,7 +302,17 @@ func (g *concGen) concCmd(m *Model, task, i int) *Cmd {
 		case 2:
 			return &Cmd{Op: "IndexDrop", T: t0, Index: "gsi1"}
 		case 3:
-			return &Cmd{Op: "Native", Native: pick(r, []string{"activate", "activate", "reset", "debug"})}
+			return &Cmd{Op: "Native", Native: pick(r, []string{"activate", "activate", "reset", "debug", "metrics"})}
+		case 4:
+			// table management on ANOTHER table while this one's indexes change
+			if len(g.W.Tables) > 1 {
+				t1 := g.W.Tables[1].Name
+				d := g.defs[t1][0]
+				if r.Chance(0.6) {
+					return &Cmd{Op: "Create", T: t1, Def: &d}
+				}
+				return &Cmd{Op: "Drop", T: t1}
+			}
 		}
 	case "big-backfill":
 		// an index created over a table of more than 32 items while writers run
@@ -333,6 +343,9 @@ func (g *concGen) concCmd(m *Model, task, i int) *Cmd {
 			return &Cmd{Op: "Transact"}
 		}
 	case "batch":
+		if r.Chance(0.12) {
+			return &Cmd{Op: "Native", Native: "metrics"}
+		}
 		if r.Chance(0.5) {
 			c := &Cmd{Op: "BatchWrite"}
 			keys := g.W.Tables[0].KeysOf(def0)
